@@ -42,6 +42,23 @@ def conversions_harness():
                    opts=['--unwind', '5'], timeout=600, mem_gb=8, string_model=True, inputs=['nconv', 'ntypes', 'c_to', 'c_from', 'to', 'from'],
                    note='0-2 registered conversions over 3 types; the shared tables show a poison state while the mutex is not held, so unlocked reads assert; set insert/copy/count are recorders; thread-local slot lookup is a stub (C14)')
 
+def add_function_harness():
+    rx = DE + r'add_function\(std::shared_ptr<chaiscript::dispatch::Proxy_Function_Base> const&, std::__cxx11::basic_string<char, std::char_traits<char>, std::allocator<char> > const&\)$'
+    stubs = [DE + r"add_function\(.*\)::'lambda'\(\)::operator\(\)", r'chaiscript::utility::QuickFlatMap<.*>::insert_or_assign', r'chaiscript::const_var<', r'std::shared_ptr<.*>::~shared_ptr']
+    cuts = [r'Boxed_Value::~Boxed_Value']
+    g, info = core.translate(FAM, [rx], stubs, tag='K5_probe', cuts=cuts)
+    txt = core.fread(g); ext = [e.split('|')[0].strip() for e in info['ext']]
+    def one(pat):
+        m = [e for e in ext if re.search(pat, e)]
+        if len(m) != 1: raise core.BuildError('C13 K5: expected exactly one external matching %s, found %d' % (pat, len(m)))
+        return 'F_' + core.cname(m[0])
+    ib = one(r'QuickFlatMapINSt7__cxx1112basic_stringIcSt11char_traitsIcESaIcEEENS_11Boxed_ValueE\w*16insert_or_assign'); io = one(r'QuickFlatMapINSt7__cxx1112basic_stringIcSt11char_traitsIcESaIcEEESt10shared_ptrINS_8dispatch19Proxy_Function_BaseEE\w*16insert_or_assign')
+    m = re.search(r'^(struct agg\d+) ' + re.escape(ib) + r'\(', txt, re.M)
+    if not m: raise core.BuildError('C13 K5: prototype of insert_or_assign not found')
+    d = {'ADD_FUNCTION': core.csym(FAM, rx), 'LAMBDA': one(r'12add_functionE.*ENKUlvE_clEv$'), 'CONST_VAR': one(r'^_ZN10chaiscript9const_varISt10shared_ptrINS_8dispatch19Proxy_Function_BaseE'), 'INS_BOXED': ib, 'INS_OBJS': io, 'INS_AGG': m.group(1)}
+    return Harness('K5.add_function(one unique hold)', FAM, [rx], 'c13_add_function.c', stubs=stubs, cuts=cuts, shapes=[dict(d, _tag='-', _witness=('witness: refused', 'witness: registered'))],
+                   opts=['--unwind', '4'], timeout=300, mem_gb=6, inputs=['lambda_throws'], note='the overload computation (K4) and the table updates are stubs asserting the lock state')
+
 def harnesses(tier):
     roots = [rx for _, rx in ENTRIES.values()]
     g, info = core.translate(FAM, roots, STUBS + core.STRING_MODEL, tag='K1_locks')
@@ -67,7 +84,7 @@ def harnesses(tier):
     from props import C15
     k4 = C15.cow_harness(tier); k4.name = 'K4.add_function(published overload vectors are never written)'
     k4.note = 'get_function hands the shared_ptr<vector> of a name to its callers under the shared lock and they dispatch over it AFTER releasing it: the vector must be immutable once published (C15 U2 harness; same obligations)'
-    return [u, conversions_harness(), k4, Harness('K1.lock_discipline', FAM, roots, 'c13_lock.c', stubs=STUBS, shapes=shapes, opts=['--unwind', '4'], timeout=300, mem_gb=6, string_model=True,
+    return [u, conversions_harness(), k4, add_function_harness(), Harness('K1.lock_discipline', FAM, roots, 'c13_lock.c', stubs=STUBS, shapes=shapes, opts=['--unwind', '4'], timeout=300, mem_gb=6, string_model=True,
                     defines={'STRING_LITERALS_OPAQUE': 1}, inputs=['name', 'objd'], note='table operations are stubs asserting the lock state; outcome of find/insert is symbolic (found / not found, inserted / conflict)')]
 
 ASSUMPTIONS = ['pthread_rwlock_* are a lock-state model; std::map member functions on engine tables are stubs that assert the lock mode and return arbitrary outcomes',
